@@ -3,8 +3,8 @@ from harness import common as C
 from harness._compute import symobj_replay
 
 PROPERTY = "C05"
-LEAN_TARGETS = ["VectorModel.Props.C05", "VectorModel.Glue.Ufunc", "VectorModel.Props.C05Ufunc"]
-THEOREM_FILES = ["VectorModel/Props/C05.lean", "VectorModel/Props/C05Ufunc.lean"]
+LEAN_TARGETS = ["VectorModel.Props.C05", "VectorModel.Glue.Ufunc", "VectorModel.Props.C05Ufunc", "VectorModel.Props.UfuncDenote"]
+THEOREM_FILES = ["VectorModel/Props/C05.lean", "VectorModel/Props/C05Ufunc.lean", "VectorModel/Props/UfuncDenote.lean"]
 NEEDS_TRANSLATOR = True
 NOT_COVERED = ["NumPy / Awkward internals (structured views, ak.zip, ak.transform): modelled at their contract, checked differentially"]
 
